@@ -173,6 +173,9 @@ RCP<const Set> Interval::set_intersection(const RCP<const Set> &o) const
         }
     }
     if (is_a<Integers>(*o) or is_a<Naturals>(*o) or is_a<Naturals0>(*o)) {
+        if (is_a<Infty>(*start_) or is_a<Infty>(*end_)) {
+            return make_set_intersection({rcp_from_this_cast<const Set>(), o});
+        }
         if (is_a_Number(*start_) and is_a_Number(*end_)) {
             auto first = SymEngine::ceiling(start_);
             auto last = SymEngine::floor(end_);
@@ -259,6 +262,9 @@ RCP<const Set> Interval::set_complement(const RCP<const Set> &o) const
     if (is_a<Interval>(*o)) {
         set_set cont;
         const Interval &other = down_cast<const Interval &>(*o);
+        if (is_a<EmptySet>(*set_intersection(o))) {
+            return o;
+        }
         if (eq(*max({start_, other.start_}), *start_)) {
             cont.insert(interval(other.get_start(), start_,
                                  other.get_left_open(), not left_open_));
@@ -441,6 +447,9 @@ RCP<const Set> Rationals::set_intersection(const RCP<const Set> &o) const
         return o;
     } else if (is_a<FiniteSet>(*o) or is_a<Reals>(*o) or is_a<Complexes>(*o)) {
         return (*o).set_intersection(rcp_from_this_cast<const Set>());
+    } else if (is_a<Interval>(*o)) {
+        return SymEngine::make_set_intersection(
+            {rcp_from_this_cast<const Set>(), o});
     } else {
         return SymEngine::set_intersection(
             {rcp_from_this_cast<const Set>(), o});
@@ -454,6 +463,8 @@ RCP<const Set> Rationals::set_union(const RCP<const Set> &o) const
         return rationals();
     } else if (is_a<FiniteSet>(*o) or is_a<Reals>(*o) or is_a<Complexes>(*o)) {
         return (*o).set_union(rcp_from_this_cast<const Set>());
+    } else if (is_a<Interval>(*o)) {
+        return SymEngine::make_set_union({rcp_from_this_cast<const Set>(), o});
     } else {
         return SymEngine::set_union({rcp_from_this_cast<const Set>(), o});
     }
